@@ -1171,6 +1171,9 @@ RULE = ("one case = one whole history on DAGNode objects (user subclass whose fo
         "malformed) + the same with the checks off + argument re-use: the SAME caller-side list object passed to two or more "
         "setter / constructor calls of one history and overwritten in place by the caller between calls (corpus, 40% of the "
         "random histories, and from every 3-node store: two calls sharing one list object then one more insertion); "
+        "checks-on histories whose node names are pairwise distinct (tag iter) additionally compare dag_iterator from one node "
+        "of the final state with Dag.dagIter of the graph read off the model's final store (DagStore.toDag, the bridge to "
+        "C16/C17), as multisets of (parent, child) pairs; "
         "non-trivial = the history asks for >= 2 edges/deletions on >= 2 nodes")
 EXHAUSTIVE = {
     "quick": "all list-exact stores reachable on 1..3 DAG nodes (1 + 3 + 49 states, found by breadth-first search on the real "
